@@ -101,9 +101,12 @@ ImplIndexed(p, loc, ex, fm, D) ==
 HasSub(str) == str \in {"my-site-packages-x", "site-packages"}
 ImplThird(l, D) == "third_party_by_substring" \in D /\ (\E i \in 1..Len(l.above) : HasSub(l.above[i]))
 
-VARIABLES loc, ex, fm
-vars == <<loc, ex, fm>>
-Init == loc \in RootLocs /\ ex \in ExcludeSets /\ fm \in FaultModes
+\* how the client NAMES the root: by its canonical path, through a symbolic link that lives elsewhere (a plainly named
+\* directory), or by a path with a `..` component.  Layer R does not depend on it: the outcome relative to the root is the same.
+Vias == {"direct", "symlink", "dotdot"}
+VARIABLES loc, ex, fm, via
+vars == <<loc, ex, fm, via>>
+Init == loc \in RootLocs /\ ex \in ExcludeSets /\ fm \in FaultModes /\ via \in Vias /\ (via # "direct" => fm = "none")
 Next == UNCHANGED vars
 Spec == Init /\ [][Next]_vars
 
@@ -116,7 +119,7 @@ RepairedEqualsR == /\ \A p \in Paths : ImplIndexed(p, loc, ex, fm, {}) = PyIndex
                    /\ ImplIndexed(Importer, loc, ex, fm, {}) = PyPulled(ex, fm)
 
 EmitCase ==
-    PrintT("CASE " \o ToJson([loc |-> loc, ex |-> ex, fm |-> fm,
+    PrintT("CASE " \o ToJson([loc |-> loc, ex |-> ex, fm |-> fm, via |-> via,
                               py |-> { p \in Paths : PyIndexed(p, ex, fm) },
                               impl |-> { p \in Paths : ImplIndexed(p, loc, ex, fm, DevsOn) },
                               nfiles |-> Cardinality(Paths),
@@ -127,7 +130,7 @@ EmitCase ==
                                             /\ { p \in Paths : ImplIndexed(p, loc, ex, fm, DevsOn) } # { p \in Paths : PyIndexed(p, ex, fm) } }]))
 
 EmitAlphabet ==
-    (loc.above = <<"plain">> /\ ex = {} /\ fm = "none") =>
+    (loc.above = <<"plain">> /\ ex = {} /\ fm = "none" /\ via = "direct") =>
         PrintT("VERSIONS " \o ToJson([dirs |-> DirAlphabet, files |-> FileAlphabet]))
 
 \* both deviations were genuine defects, repaired in /repo by 1053d5b
